@@ -35,8 +35,8 @@ RULE = ('programs = grammar models obtained by (i) tatsu.compile of generated gr
 ASSUMPTIONS = [
     'the original in-memory model is the reference; equality of outcomes = accept/reject, exception class, canonical AST '
     '(lists/tuples unified, parseinfo dropped)',
-    'kept facts compared: directives, keywords, and per rule name/params/kwparams/base/@name/@nomemo; @nostak only '
-    'affects tracing and is counted, not required',
+    'kept facts compared: directives, keywords, and per rule name/params/kwparams/base/@name/@nomemo and the effective '
+    'no_stak flag (a @nostak decorator that is recorded but not applied does not affect parsing and is not required)',
     'display width of a rail = sum over characters of 2 if east_asian_width in {W,F} else 1 (the convention the '
     'renderer documents), recomputed independently of tatsu.util.unicode_display_len',
     'object-route models only use shapes the grammar text can express (Groups where text needs parentheses, no meta '
@@ -340,15 +340,11 @@ def record(acc, res, route, feats):
         acc.nontriv(route, res.pretty)
 
 
-FAMILY_KINDS = {'roundtrip', 'railroads'}
-
-
 def attribute(acc, g, start, route, inputs, res, origin):
     """res has failures: attribute them to hazards, or shrink and report as an unknown mechanism"""
     acc.count('disagreements_checked', len(res.fails))
     hz = MG.hazards(g)
     fams = {f for f, _, _ in res.fails}
-    explained = set()
     if hz:
         g0 = MG.neutralise(g, hz)
         if MG.hazards(g0):
@@ -377,7 +373,6 @@ def attribute(acc, g, start, route, inputs, res, origin):
                 acc.violation(f'{fam}/interaction:' + '+'.join(sorted(hz)),
                               f'{detail[0]}: {detail[1]} only with hazards {sorted(hz)} together | grammar {MG.gtext(g).strip()!r}',
                               witness(g, start, route, inputs, origin))
-            explained.add(fam)
         return
     report_unknown(acc, g, start, route, inputs, res, origin)
 
@@ -462,9 +457,6 @@ def do_lcase(acc, g, start, route, inputs, feats, origin):
 
 
 # --------------------------------------------------------------------------- g2e and corpus cases
-G2E_MECHANISMS = {}
-
-
 def g2e_model(text):
     from tatsu import g2e
     return g2e.translate(text=text, name='G')
